@@ -182,13 +182,228 @@ def check_c02(prop_id, tier, seed):
 @prop("C15")
 def check_c15(prop_id, tier, seed):
     # C15 is about the index structures themselves: it owns the IndexInv mismatches (what = index) and panics;
-    # wrong query answers through an index belong to C02/C16, wrong statement outcomes to C09/C10
-    # Queries do not change index structures, so no probes are appended: every history of the bounded graph is
-    # replayed (quick: exhaustive at depth 3; thorough: depth 4, 125 038 histories).
-    return idx_check(prop_id, tier, seed, ["default"], owns=lambda b: b.get("what") in ("index", "panic"),
-                     sample={"quick": 10 ** 9, "thorough": 10 ** 9}, nprobes={"quick": 0, "thorough": 0})
+    # wrong query answers through an index belong to C02/C16, wrong statement outcomes to C09/C10.
+    # Queries do not change index structures, so no probes are appended: every history of the bounded graphs is
+    # replayed.  Three models feed it: MC_Idx (user-defined indexes of every shape on an unconstrained table),
+    # MC_Dml (the PRIMARY KEY / UNIQUE constraint hash indexes under key-changing, NULL-ing and rejected statements)
+    # and MC_Txn (index contents across ROLLBACK / ROLLBACK TO SAVEPOINT).
+    t0 = time.time()
+    scen, stats = idx_scenarios(prop_id, tier, seed, 10 ** 9, 0)
+    d = {"quick": 6, "thorough": 7}[tier]
+    dml, st2 = vc.gen_scenarios(prop_id, "MC_Dml", "MC_Dml.cfg", ec.ENGINE_DEPS, consts={"MaxDepth": d}, workers=1)
+    txn, st3 = vc.gen_scenarios(prop_id, "MC_Txn", "MC_Txn.cfg", ec.ENGINE_DEPS, consts={"MaxDepth": {"quick": 5, "thorough": 6}[tier]}, workers=1)
+    for k in ("states_generated", "distinct_states"):
+        stats[k] = stats.get(k, 0) + st2.get(k, 0) + st3.get(k, 0)
+    cfgs = [IDX_CONFIGS["default"]]
+    parts = [{"name": "idx", "scenarios": scen, "configs": cfgs}, {"name": "dml", "scenarios": dml, "configs": cfgs},
+             {"name": "txn", "scenarios": txn, "configs": cfgs}]
+    wd = os.path.join(vc.RUN, "work_%s" % prop_id)
+    verdict, events, _ = ec.run_parts(prop_id, parts, wd)
+    return ec.finish(prop_id, tier, seed, t0, verdict, events, stats, owns=lambda b: b.get("what") in ("index", "panic"),
+                     configs=cfgs, extra_cov={"models": ["MC_Idx", "MC_Dml", "MC_Txn"]})
 
 
 @prop("C16")
 def check_c16(prop_id, tier, seed):
     return idx_check(prop_id, tier, seed, ["default", "spill", "disk"])
+
+
+# ---------------------------------------------------------------- C05..C08, C32: the query families under the
+# configurations that select the alternative execution mechanisms (cost-based join order after ANALYZE, index
+# nested-loop / index scans when indexes exist).  Same oracle (SqlSem.tla via TraceEngine), same scenarios as the
+# model MC_Sem emits; the spec-level theorems (ThmRewrite, ThmTLP, ThmSlice, ThmView) are checked by TLC while it
+# generates them.
+def inject_before_queries(scen, actions):
+    """Insert abstract actions (ANALYZE, CREATE INDEX ...) just before the first query of each scenario."""
+    out = []
+    for sc in scen:
+        steps = sc["steps"]
+        k = next((i for i, s in enumerate(steps) if s.get("a") == "q"), len(steps))
+        out.append({"id": sc["id"], "steps": steps[:k] + actions + steps[k:]})
+    return out
+
+
+def _ci(n, t, cols, uq=False):
+    return {"a": "ci", "n": n, "t": t, "uq": uq, "cols": [{"c": c, "dir": d, "plen": 0} for c, d in cols]}
+
+
+VARIANTS = {
+    "plain": [],
+    "analyze": [{"a": "analyze", "t": ""}],
+    "indexed": [_ci("IX1A", "T1", [("A", "asc")]), _ci("IX2A", "T2", [("A", "asc")]), _ci("IX1B", "T1", [("B", "desc")])],
+    "indexed_analyze": [_ci("IX1A", "T1", [("A", "asc")]), _ci("IX2A", "T2", [("A", "asc")]), _ci("IX1AB", "T1", [("A", "asc"), ("B", "asc")]),
+                        {"a": "analyze", "t": ""}],
+}
+
+
+def sem_variant_check(prop_id, tier, seed, families, variants, bounds=None, configs=None):
+    t0 = time.time()
+    parts, stats = sem_parts(prop_id, tier, families, bounds=bounds, configs=configs)
+    allparts = []
+    for v in variants:
+        for p in parts:
+            sc = p["scenarios"] if v == "plain" else inject_before_queries(p["scenarios"], VARIANTS[v])
+            sc = [{"id": "%s-%s" % (s["id"], v), "steps": s["steps"]} for s in sc]
+            allparts.append({"name": "%s_%s" % (p["name"], v), "scenarios": sc, "configs": p["configs"]})
+    wd = os.path.join(vc.RUN, "work_%s" % prop_id)
+    verdict, events, _ = ec.run_parts(prop_id, allparts, wd)
+    return ec.finish(prop_id, tier, seed, t0, verdict, events, stats,
+                     extra_cov={"families": families, "variants": variants})
+
+
+JOIN_BOUNDS = {
+    "quick":    {"Max1": 2, "Max2": 1, "IntVals": "{0, 1}", "StrVals": '{"a"}'},
+    "thorough": {"Max1": 2, "Max2": 2, "IntVals": "{0, 1}", "StrVals": '{"a"}'},
+}
+JOIN_VARIANTS = {"quick": ["plain", "indexed_analyze"], "thorough": ["plain", "analyze", "indexed", "indexed_analyze"]}
+
+
+@prop("C05")
+def check_c05(prop_id, tier, seed):
+    return sem_variant_check(prop_id, tier, seed, ["F3", "F8"], JOIN_VARIANTS[tier], bounds=JOIN_BOUNDS[tier])
+
+
+@prop("C06")
+def check_c06(prop_id, tier, seed):
+    return sem_variant_check(prop_id, tier, seed, ["F1", "F1L", "F1C"], ["plain", "indexed"])
+
+
+@prop("C07")
+def check_c07(prop_id, tier, seed):
+    return sem_variant_check(prop_id, tier, seed, ["F4", "F4S"], ["plain", "indexed"])
+
+
+@prop("C08")
+def check_c08(prop_id, tier, seed):
+    return sem_variant_check(prop_id, tier, seed, ["F5", "F5S", "F6"], ["plain", "indexed"])
+
+
+@prop("C32")
+def check_c32(prop_id, tier, seed):
+    return sem_variant_check(prop_id, tier, seed, ["F9"], JOIN_VARIANTS[tier], bounds=JOIN_BOUNDS[tier])
+
+
+# ---------------------------------------------------------------- C03: columnar fast path = row execution
+def harvest_queries(parts):
+    """Distinct query actions of the generated scenarios (in first-seen order)."""
+    seen, out = set(), []
+    for p in parts:
+        for sc in p["scenarios"]:
+            for s in sc["steps"]:
+                if s.get("a") == "q":
+                    k = json.dumps(s, sort_keys=True)
+                    if k not in seen:
+                        seen.add(k)
+                        out.append(s)
+    return out
+
+
+def jv(v):
+    if v is None:
+        return {"t": "n", "n": 0, "s": "", "d": 1}
+    if isinstance(v, str):
+        return {"t": "s", "n": 0, "s": v, "d": 1}
+    return {"t": "i", "n": int(v), "s": "", "d": 1}
+
+
+def lit(v):
+    return {"k": "lit", "v": jv(v)}
+
+
+def table_prefix(parts):
+    """The DDL prefix (CREATE TABLE ... / CREATE VIEW ...) shared by the generated scenarios."""
+    for p in parts:
+        for sc in p["scenarios"]:
+            return [s for s in sc["steps"] if s.get("a") in ("ct", "cv")]
+    return []
+
+
+def big_tables(seed, sizes, int_dom, str_dom, per_size=1):
+    """Seeded larger tables for the shared schema T1(A INT, B INT), T2(A INT, C VARCHAR): the impl -> spec
+    direction (sizes beyond what TLC enumerates exhaustively; the oracle is still TLC on the recorded trace)."""
+    import random
+    rnd = random.Random(seed)
+    out = []
+    for n in sizes:
+        for k in range(per_size):
+            nulls = rnd.choice([0.0, 0.2, 0.6, 1.0]) if k else rnd.choice([0.0, 0.3])
+            pick = lambda dom: None if rnd.random() < nulls else rnd.choice(dom)
+            t1 = [[jv(pick(int_dom)), jv(pick(int_dom))] for _ in range(n)]
+            t2 = [[jv(pick(int_dom)), jv(pick(str_dom))] for _ in range(max(1, n // 2))]
+            out.append((n, t1, t2))
+    return out
+
+
+def ins_action(t, rows):
+    return {"a": "ins", "t": t, "cols": [], "mode": "plain", "rows": [[lit_of(v) for v in r] for r in rows]}
+
+
+def lit_of(v):
+    return {"k": "lit", "v": v}
+
+
+def big_scenarios(prop_id, seed, ddl, queries, sizes, int_dom=(0, 1, 2, 3, -1, 7), str_dom=("a", "A", "b", "ab", ""), per_size=2, tag="big"):
+    out = []
+    for j, (n, t1, t2) in enumerate(big_tables(seed, sizes, list(int_dom), list(str_dom), per_size)):
+        steps = list(ddl)
+        # views of the DDL prefix must come after the tables exist but may precede the rows
+        if t1:
+            steps.append(ins_action("T1", t1))
+        if t2:
+            steps.append(ins_action("T2", t2))
+        out.append({"id": "%s-%s-%03d-n%d" % (prop_id, tag, j, n), "steps": steps + queries})
+    return out
+
+
+def cfg_diff_owner(verdict, primary, reference):
+    """Attribution for twin-configuration checks: a mismatch seen under `primary` but not at the same scenario
+    step under `reference` (or seen only under `reference`) is a difference BETWEEN the configurations; one seen
+    identically under both belongs to the property about the common semantics."""
+    by = {}
+    for b in verdict["bad"]:
+        by.setdefault((b["sc"], b["i"], b["what"]), set()).add(b.get("cfg"))
+    return lambda b: b.get("what") == "panic" or by.get((b["sc"], b["i"], b["what"]), set()) != {primary, reference}
+
+
+COLUMNAR_CFGS = [{"name": "columnar", "args": []},
+                 {"name": "rowpath", "args": [], "env": {"VIBESQL_VERIF_COLUMNAR": "off"}}]
+
+
+@prop("C03")
+def check_c03(prop_id, tier, seed):
+    t0 = time.time()
+    parts, stats = sem_parts(prop_id, tier, ["F4", "F4S"], configs=COLUMNAR_CFGS)
+    qs = harvest_queries(parts)
+    sizes = {"quick": [4, 7, 8, 9, 16, 17, 33], "thorough": [4, 5, 7, 8, 9, 15, 16, 17, 31, 32, 33, 40, 64, 65]}[tier]
+    big = big_scenarios(prop_id, seed, table_prefix(parts), qs, sizes, per_size={"quick": 1, "thorough": 3}[tier])
+    parts.append({"name": "big", "scenarios": big, "configs": COLUMNAR_CFGS})
+    stats["exhaustive"] = False
+    wd = os.path.join(vc.RUN, "work_%s" % prop_id)
+    verdict, events, _ = ec.run_parts(prop_id, parts, wd)
+    return ec.finish(prop_id, tier, seed, t0, verdict, events, stats, owns=cfg_diff_owner(verdict, "columnar", "rowpath"),
+                     configs=COLUMNAR_CFGS, extra_cov={"families": ["F4", "F4S", "big"], "configs": ["columnar", "rowpath"],
+                                                       "seeded_table_sizes": sizes, "aggregate_queries": len(qs)})
+
+
+# ---------------------------------------------------------------- C12: referential integrity (MC_Fk)
+# ON DELETE / ON UPDATE RESTRICT is not accepted by the parser ("Expected NO ACTION, CASCADE, SET NULL, or SET DEFAULT"),
+# so the restricting behaviour is exercised through NO ACTION (the executors treat both alike)
+FK_MODES = ["cascade", "setnull", "noaction"]
+
+
+@prop("C12")
+def check_c12(prop_id, tier, seed):
+    t0 = time.time()
+    depth = {"quick": 4, "thorough": 5}[tier]
+    parts, agg = [], {"states_generated": 0, "distinct_states": 0, "mc_ok": True, "exhaustive": True}
+    cfgs = [{"name": "default", "args": ["--idx"]}]
+    for m in FK_MODES:
+        scen, stats = vc.gen_scenarios(prop_id, "MC_Fk", "MC_Fk.cfg", ec.ENGINE_DEPS, consts={"MaxDepth": depth, "Mode": '"%s"' % m}, workers=1)
+        for k in ("states_generated", "distinct_states"):
+            agg[k] += stats[k]
+        agg["mc_ok"] = agg["mc_ok"] and stats["mc_ok"]
+        scen = [{"id": "%s-%s" % (s["id"], m), "steps": s["steps"]} for s in scen]
+        parts.append({"name": m, "scenarios": scen, "configs": cfgs})
+    wd = os.path.join(vc.RUN, "work_%s" % prop_id)
+    verdict, events, _ = ec.run_parts(prop_id, parts, wd)
+    return ec.finish(prop_id, tier, seed, t0, verdict, events, agg, configs=cfgs, extra_cov={"fk_modes": FK_MODES})
